@@ -384,3 +384,39 @@ Lemma seq_nullable_yes_or_no_refuted (Or : oracles) :
   in_null_values (r_self rseq_nyn) (VList []) = true /\
   v_single_null <> VList [].
 Proof. vm_compute. repeat split; try reflexivity. discriminate. Qed.
+
+(* ---------- every class of the class table, and every RequireNullValue mix over one ---------- *)
+Section ClassSweep.
+  Variable tbl : list class_info.
+  Definition cref_strict (c : cref) : bool :=
+    match resolve tbl c with Some r => class_strict_ok r | None => false end.
+  Lemma cref_strict_sound c : cref_strict c = true -> exists r, resolve tbl c = Some r /\ class_strict_ok r = true.
+  Proof. unfold cref_strict. destruct (resolve tbl c) as [r|]; [eauto|discriminate]. Qed.
+
+  (* column classes = what get_column_types() returns; `but` is left out *)
+  Definition column_class_names (but : list string) : list string :=
+    filter (fun n => is_column_type tbl n && negb (existsb (String.eqb n) but)) (map ci_name tbl).
+  Definition all_classes_strict (but : list string) : bool :=
+    forallb (fun n => cref_strict (CSrc n)) (column_class_names but).
+  Definition all_mixes_strict (but : list string) : bool :=
+    forallb (fun n => cref_strict (CMix (CSrc "RequireNullValue") (CSrc n))) (column_class_names but).
+
+  Lemma classes_strict_lift but : all_classes_strict but = true ->
+    forall n, In n (column_class_names but) -> exists r, resolve tbl (CSrc n) = Some r /\ class_strict_ok r = true.
+  Proof. intros H n Hn. apply cref_strict_sound. exact (proj1 (forallb_forall _ _) H n Hn). Qed.
+  Lemma mixes_strict_lift but : all_mixes_strict but = true ->
+    forall n, In n (column_class_names but) ->
+      exists r, resolve tbl (CMix (CSrc "RequireNullValue") (CSrc n)) = Some r /\ class_strict_ok r = true.
+  Proof. intros H n Hn. apply cref_strict_sound. exact (proj1 (forallb_forall _ _) H n Hn). Qed.
+End ClassSweep.
+
+(* all column classes but the refuted one *)
+Lemma every_column_class_strict : all_classes_strict class_table ["SequenceOfNullableYesOrNo"] = true.
+Proof. vm_compute. reflexivity. Qed.
+(* RequireNullValue mixed over every column class (type(name, (RequireNullValue, base), {})); over
+   itself python refuses the duplicate base, and so does the model's C3 *)
+Lemma every_rnv_mix_strict : all_mixes_strict class_table ["RequireNullValue"] = true.
+Proof. vm_compute. reflexivity. Qed.
+
+Definition column_class_fixpoint := classes_strict_lift class_table _ every_column_class_strict.
+Definition rnv_mix_fixpoint := mixes_strict_lift class_table _ every_rnv_mix_strict.
